@@ -472,12 +472,50 @@ theorem lookup_order_independent (envA envB : Env) (R : Registry) (a b : Name) :
     lookupRepaired envB (lookupRepaired envA R a).2 b = lookupRepaired envB R b := by
   rw [lookup_pure]
 
-/-- The verdict for the tree under test: `Gen.lookupCopies` is what the translator's probe found; the driver ties
-    `lookupG Gen.lookupCopies` to the real code.  If the tree copies before amending, its model is order independent
-    (for the pinned tree the flag is `false`, the statement is vacuous and the witnesses below apply). -/
+/-- Conditional form (true on any tree): `Gen.lookupCopies` is what the translator's probe found; the driver ties
+    `lookupG Gen.lookupCopies` to the real code.  If the tree copies before amending, its model is order independent. -/
 theorem tree_lookup_order_independent (h : Gen.lookupCopies = true) (envA envB : Env) (R : Registry) (a b : Name) :
     lookupG Gen.lookupCopies envB (lookupG Gen.lookupCopies envA R a).2 b = lookupG Gen.lookupCopies envB R b := by
   rw [h]; exact lookup_order_independent envA envB R a b
+
+/-- the variant in force: the tree under test copies before amending (/repo 56dac96 "LookupTerminfo amends a copy, not the
+    registered entry").  On a tree that still amends in place this declaration fails to check and the `lookup` engine's
+    oracle reports the order dependence with a concrete history (class `lookup-order-dependent`). -/
+theorem tree_lookup_copies : Gen.lookupCopies = true := by decide
+
+/-- the model of the tree under test: `LookupTerminfo` as the current source implements it -/
+abbrev lookupTree (env : Env) (R : Registry) (n : Name) : Option Res × Registry := lookupG Gen.lookupCopies env R n
+
+/-- **lookup_pure_tree** (headline, current tree): a lookup does not change the registry — any environment, registry, name. -/
+theorem lookup_pure_tree (env : Env) (R : Registry) (n : Name) : (lookupTree env R n).2 = R := by
+  show (lookupG Gen.lookupCopies env R n).2 = R
+  rw [tree_lookup_copies]; exact lookup_pure env R n
+
+/-- **lookup_order_independent_tree** (headline, current tree, full strength): for all names `a b`, all registries and all
+    environments (even a different one for each lookup), looking up `b` gives the same result — returned entry AND registry
+    left behind — whether or not `a` was looked up first.  No restriction on `a` (synthesizing `-256color` / `-truecolor`
+    lookups and RGB amendment included: exactly the cases `lookup_order_dependent_*` refute for the pinned code). -/
+theorem lookup_order_independent_tree (envA envB : Env) (R : Registry) (a b : Name) :
+    lookupTree envB (lookupTree envA R a).2 b = lookupTree envB R b :=
+  tree_lookup_order_independent tree_lookup_copies envA envB R a b
+
+/-- **history_independent_tree**: every lookup of a history of any length returns what it returns in the initial registry,
+    and the registry at the end is the initial one. -/
+theorem history_independent_tree (env : Env) (R : Registry) (ns : List Name) :
+    runHistory (lookupTree env) R ns = (ns.map fun n => resultOf (lookupTree env R n), R) := by
+  induction ns with
+  | nil => rfl
+  | cons n ns ih => simp only [runHistory, lookup_pure_tree, ih, List.map_cons]
+
+/-- non-vacuity on the real database, for the tree's own model: the three histories that were order dependent on the pinned
+    code now agree, and the lookups still synthesize / amend (256 colours, RGB strings present) -/
+example :
+    (resultOf (lookupTree {} (lookupTree {} R₀ (nm "eterm-256color")).2 (nm "eterm-color"))).map (·.colors) = some 8 ∧
+    (resultOf (lookupTree {} R₀ (nm "eterm-256color"))).map (·.colors) = some 256 ∧
+    (resultOf (lookupTree {} (lookupTree {} R₀ (nm "screen-truecolor")).2 (nm "screen-256color"))).map rgbAllEmpty = some true ∧
+    (resultOf (lookupTree {} R₀ (nm "screen-truecolor"))).map rgbAllEmpty = some false ∧
+    (resultOf (lookupTree {} (lookupTree { colorterm := "truecolor" } R₀ (nm "xterm")).2 (nm "xterm"))).map rgbAllEmpty = some true := by
+  decide +kernel
 
 /-- … and for histories of any length: every lookup of a history returns what it returns in the initial registry,
     and the registry at the end is the initial one. -/
@@ -556,11 +594,13 @@ theorem lookup_order_independent_false :
     rw [h, w.1] at this
     cases this
 
-/-- **lookup_result_independent_partial** (pinned code): the clause holds for every second lookup `b` when the first
-    lookup `a` either fails, or is a direct hit that needs no amendment (24-bit colour not requested, or the entry already
-    has an RGB string).  Missing for the full statement: first lookups that synthesize (`-256color`, `-truecolor`
-    variants) or add RGB strings — for those the statement is false, see the witnesses above. -/
-theorem lookup_result_independent_partial (envA envB : Env) (R : Registry) (a b : Name)
+/-- **pinned code only** (`lookup` = `lookupG false`, the model of the tree before 56dac96; NOT the variant in force — for the
+    current tree see `lookup_order_independent_tree`, which has no hypothesis on `a`): the clause holds for every second
+    lookup `b` when the first lookup `a` either fails, or is a direct hit that needs no amendment (24-bit colour not requested,
+    or the entry already has an RGB string).  For first lookups that synthesize (`-256color`, `-truecolor` variants) or add RGB
+    strings the statement is false for the pinned code, see the witnesses above.  Kept as the exact extent of the former
+    defect (renamed from `lookup_result_independent_partial`: it is no longer a weakening of the headline claim). -/
+theorem pinned_lookup_result_independent (envA envB : Env) (R : Registry) (a b : Name)
     (h : (lookup envA R a).1 = none ∨
          ∃ id, a ≠ [] ∧ R.find a = some id ∧
            (envA.finalTC (envA.colortermOn || (R.deref id).trueColor) = false ∨ rgbAllEmpty (R.deref id) = false)) :
